@@ -326,20 +326,20 @@ fn chunk_reader_any_sizes(restrict: u8) {
     let s8: [u8; K] = kani::any();
     kani::assume(o8[0] < 40 && o8[1] < 40 && s8[0] <= 2 && s8[1] <= 2);
     match restrict {
-        0 => kani::assume(s8[0] >= 1 && s8[1] >= 1), // role of finding F8 (zero-size stored chunk) assumed away
-        8 => kani::assume(s8[0] == 0 || s8[1] == 0),
-        _ => {}
+        0 => kani::assume(s8[0] >= 1 && s8[1] >= 1),
+        _ => kani::assume(s8[0] == 0), // role of finding F8: descriptor with stored size 0, served before any request exists
     }
     let mut chunks = Vec::with_capacity(K);
     chunks.push(ChunkOffset::new(o8[0] as u64, s8[0] as usize));
     chunks.push(ChunkOffset::new(o8[1] as u64, s8[1] as usize));
-    let sc: [u8; 4] = kani::any();
-    kani::assume(sc[0] <= 3 || sc[0] == 9 || sc[0] == 10);
-    kani::assume(sc[1] == 0 || sc[1] == 9 || sc[1] == 10);
+    // one answer of the inner request per poll: a fragment of up to 3 bytes that may exceed what was asked for
+    // (misbehaving server), clean end, Pending or error
+    let a0: u8 = kani::any();
+    kani::assume(a0 <= 3 || a0 == 9 || a0 == 10);
     unsafe {
         rr::SCRIPTED = true;
-        rr::SCRIPT = [sc[0], sc[1], 9, 9];
-        rr::SCRIPT_MISBEHAVE = true; // the server may send more than the range asked for
+        rr::SCRIPT = [a0, 9, 9, 9];
+        rr::SCRIPT_MISBEHAVE = true;
     }
     let rb = builder();
     let mut cr = ChunkReader {
@@ -353,19 +353,10 @@ fn chunk_reader_any_sizes(restrict: u8) {
         request: None,
     };
     let mut cx = noop_cx();
-    // first item
     match cr.poll_read(&mut cx) {
         Poll::Ready(Some(Ok(b))) => {
+            kani::cover!(true);
             std::mem::forget(b);
-            // second item
-            match cr.poll_read(&mut cx) {
-                Poll::Ready(Some(Ok(b))) => {
-                    kani::cover!(true);
-                    std::mem::forget(b);
-                }
-                Poll::Ready(Some(Err(e))) => std::mem::forget(e),
-                _ => {}
-            }
         }
         Poll::Ready(Some(Err(e))) => std::mem::forget(e),
         _ => {}
@@ -377,9 +368,35 @@ fn chunk_reader_any_sizes(restrict: u8) {
 fn c15_chunk_reader_any_sizes() {
     chunk_reader_any_sizes(0);
 }
-/// restricted to the role of finding F8 (descriptor with stored size 0)
+/// A descriptor with stored size 0 (untrusted dictionary), reached when no request is open: served without a
+/// request -- must not panic (finding F8: the run counter was decremented below zero).
 #[kani::proof]
 #[kani::unwind(4)]
 fn c15_chunk_reader_zero_size() {
-    chunk_reader_any_sizes(8);
+    let o: u8 = kani::any();
+    let mut chunks = Vec::with_capacity(1);
+    chunks.push(ChunkOffset::new(o as u64, 0));
+    let rb = builder();
+    let mut cr = ChunkReader {
+        request_builder: &rb,
+        chunk_buf: BytesMut::new(),
+        chunk_index: 0,
+        num_adjacent_reads: 0,
+        chunks,
+        retry_count: 0,
+        retry_delay: Duration::from_secs(0),
+        request: None,
+    };
+    let mut cx = noop_cx();
+    match cr.poll_read(&mut cx) {
+        Poll::Ready(Some(Ok(b))) => {
+            assert!(b.len() == 0);
+            kani::cover!(true);
+            std::mem::forget(b);
+        }
+        Poll::Ready(Some(Err(e))) => std::mem::forget(e),
+        _ => {}
+    }
+    assert!(n_requests() == 0);
+    std::mem::forget(cr);
 }
